@@ -27,7 +27,7 @@ use crate::keyspace::{
     MultiSet,
     READ_REPAIR_SOURCE_ID,
 };
-use crate::replication::MAX_CONCURRENT_REQUESTS;
+use crate::replication::{MAX_CONCURRENT_REQUESTS, REQUEST_TIMEOUT};
 use crate::rpc::ReplicationClient;
 use crate::storage::ProgressWatcher;
 use crate::{DocVec, ProgressTracker, PutContext, Storage};
@@ -264,6 +264,7 @@ where
 
     let channel = ctx.network.get_or_connect(target_node_addr);
     let mut client = ReplicationClient::<S>::new(ctx.clock().clone(), channel.clone());
+    client.set_timeout(REQUEST_TIMEOUT);
     let keyspace_timestamps = client.poll_keyspace().await?;
 
     let diff = keyspace_tracker
@@ -276,7 +277,8 @@ where
     for keyspace in diff {
         let permits = permits.clone();
         let group = ctx.group.clone();
-        let client = ReplicationClient::new(ctx.clock().clone(), channel.clone());
+        let mut client = ReplicationClient::new(ctx.clock().clone(), channel.clone());
+        client.set_timeout(REQUEST_TIMEOUT);
 
         let task = tokio::spawn(async move {
             let _permit = permits.acquire();
